@@ -113,6 +113,8 @@ def check(run):
         run.rules.pop(x, None)
     run.assumptions += ["what the checked hash rejects (range + identity test against the control table) is decided by C05-checked; abort after the handler by C02-abort",
                         "policies with runtime_checks but without a type hash have no registration test at call time; the property is stated for the stock debug policy"]
+    from .. import crules as _cr
+    _cr.facet_rules(run, "C15-facets")
     return run.finish(level="other", explanation="AST rules on the three update-time look-ups (null test, reported id, abort, control dependence) and IR path queries on every "
                       "object-to-v-table-pointer route of the checked policies (must pass the checked hash), plus the operand check of final's type comparison.")
 
